@@ -157,6 +157,18 @@ class USMSecurityParameters:
         """
         Construct a USMSecurityParameters instance from an SNMP/X690 Sequence
         """
+        expected_types = (
+            OctetString,
+            Integer,
+            Integer,
+            OctetString,
+            OctetString,
+            OctetString,
+        )
+        if len(seq) != len(expected_types) or not all(
+            isinstance(item, type_) for item, type_ in zip(seq, expected_types)
+        ):
+            raise SnmpError("Malformed USM security parameters!")
         return USMSecurityParameters(
             authoritative_engine_id=seq[0].pythonize(),
             authoritative_engine_boots=seq[1].pythonize(),
